@@ -1,6 +1,7 @@
 //! Per-property workloads and verdict logic.
 pub mod hist;
 pub mod real_c16;
+pub mod real_gated;
 pub mod real_misc;
 pub mod realp;
 pub mod sched;
